@@ -1,6 +1,7 @@
 package main
 
 import (
+	"encoding/json"
 	"fmt"
 	"io/fs"
 	"os"
@@ -16,6 +17,17 @@ import (
 // judgements as the model-driven cases.  TLC has no part in choosing these files; they are counted
 // separately (summary line) and never replace the model-driven enumeration.
 func runFmtCorpus(which, root string) {
+	if os.Getenv("FMTH_WORKER") != "" {
+		base := 0
+		fmt.Sscanf(os.Getenv("FMTH_BASE"), "%d", &base)
+		hlib.ForEachCase(func(i int, c *corpusCase) {
+			r := checkCorpusFile(which, root, c.File)
+			r.Idx = base + i
+			hlib.Emit(r)
+			hlib.Flush()
+		})
+		return
+	}
 	var files []string
 	filepath.WalkDir(root, func(path string, d fs.DirEntry, err error) error {
 		if err != nil {
@@ -34,78 +46,86 @@ func runFmtCorpus(which, root string) {
 		return nil
 	})
 	sort.Strings(files)
-	outs := make([]hlib.Result, len(files))
-	parsed := make([]bool, len(files))
-	hlib.Parallel(len(files), 8, func(i int) {
-		path := files[i]
-		rel, _ := filepath.Rel(root, path)
-		in := map[string]any{"file": rel}
-		src, err := os.ReadFile(path)
-		if err != nil {
-			outs[i] = hlib.Result{Idx: -1, V: "skip", Detail: rel + ": unreadable"}
-			return
-		}
-		class := filepath.Ext(path) == ".gox"
-		r := runFormat(src, class)
-		if r.in == nil && r.panicked == "" {
-			outs[i] = hlib.Result{Idx: -1, V: "skip", Detail: rel + ": does not parse"}
-			return
-		}
-		parsed[i] = true
-		res := hlib.Result{Idx: -1, V: "ok", Input: in, NT: "corpus:" + rel}
-		if r.panicked != "" {
-			res.V, res.Sig, res.Detail = "viol", "panic:"+which, rel+": "+r.panicked
-			outs[i] = res
-			return
-		}
-		var vd *verdict
-		switch which {
-		case "c19":
-			vd = judge19(r)
-		case "c20":
-			vd = judge20(r)
-			if vd != nil && vd.sig == "not-idempotent" {
-				vd.sig += ":" + diffPlace(r).String() + ":corpus"
-			}
-		case "c21":
-			rt, _ := scanAll(src)
-			_, cm := tokensAndComments(rt)
-			var blame int
-			vd, blame = judge21(r, cm)
-			if vd != nil {
-				// structural place of the offending comment in the input
-				k := 0
-				for _, t := range rt {
-					if t.tok != token.COMMENT {
-						continue
-					}
-					if k == blame {
-						kind := "/*"
-						if len(t.lit) > 1 && t.lit[0] == '/' && t.lit[1] == '/' {
-							kind = "//"
-						} else if len(t.lit) > 0 && t.lit[0] == '#' {
-							kind = "#"
-						}
-						vd.sig += ":" + placeAt(src, r.in, r.inFset, t.pos, t.end-t.pos).String() + ":" + kind
-						break
-					}
-					k++
-				}
-			}
-		}
-		if vd != nil {
-			res.V, res.Sig, res.Detail = vd.v, vd.sig, rel+": "+clip(vd.detail, 3000)
-		} else {
-			res.Detail = fmt.Sprintf("%d bytes", len(r.out1))
-		}
-		outs[i] = res
-	})
+	lines := make([][]byte, len(files))
+	for i, f := range files {
+		lines[i], _ = json.Marshal(corpusCase{File: f})
+	}
+	out := superviseChunks(which, "corpus", lines, root)
 	n := 0
-	for i, r := range outs {
-		if parsed[i] {
+	for i := range out {
+		if out[i].V != "skip" || out[i].Sig != "" {
 			n++
 		}
-		hlib.Emit(r)
+		out[i].Idx = -1 // a corpus file is not a CASE record
+		hlib.Emit(out[i])
 	}
 	hlib.EmitRaw(map[string]any{"v": "summary", "corpus_files_seen": len(files), "corpus_files_parsed": n})
+}
+
+type corpusCase struct {
+	File string `json:"file"`
+}
+
+func checkCorpusFile(which, root, path string) hlib.Result {
+	rel, _ := filepath.Rel(root, path)
+	in := map[string]any{"file": rel}
+	src, err := os.ReadFile(path)
+	if err != nil {
+		return hlib.Result{V: "skip", Detail: rel + ": unreadable"}
+	}
+	class := filepath.Ext(path) == ".gox"
+	r := runFormat(src, class)
+	if r.in == nil && r.panicked == "" {
+		return hlib.Result{V: "skip", Detail: rel + ": does not parse"}
+	}
+	res := hlib.Result{V: "ok", Input: in, NT: "corpus:" + rel}
+	if r.panicked != "" {
+		res.V, res.Sig, res.Detail = "viol", "panic:"+which, rel+": "+r.panicked
+		return res
+	}
+	var vd *verdict
+	switch which {
+	case "c19":
+		vd = judge19(r)
+	case "c20":
+		vd = judge20(r)
+		if vd != nil && vd.sig == "not-idempotent" {
+			vd.sig += ":" + diffPlace(r).String() + ":corpus"
+		}
+	case "c21":
+		rt, _ := scanAll(src)
+		_, cm := tokensAndComments(rt)
+		var blame int
+		vd, blame = judge21(r, cm)
+		if vd != nil {
+			// structural place of the offending comment in the input
+			k := 0
+			for _, t := range rt {
+				if t.tok != token.COMMENT {
+					continue
+				}
+				if k == blame {
+					kind := "/*"
+					if len(t.lit) > 1 && t.lit[0] == '/' && t.lit[1] == '/' {
+						kind = "//"
+					} else if len(t.lit) > 0 && t.lit[0] == '#' {
+						kind = "#"
+					}
+					vd.sig += ":" + placeAt(src, r.in, r.inFset, t.pos, t.end-t.pos).String() + ":" + kind
+					break
+				}
+				k++
+			}
+		}
+	}
+	if vd != nil {
+		v := vd.v
+		if v == "skip" {
+			return hlib.Result{V: "skip", Sig: vd.sig, Detail: rel + ": " + vd.detail}
+		}
+		res.V, res.Sig, res.Detail = v, vd.sig, rel+": "+clip(vd.detail, 3000)
+	} else {
+		res.Detail = fmt.Sprintf("%d bytes", len(r.out1))
+	}
+	return res
 }
